@@ -170,6 +170,33 @@ func SigKey(fn *types.Func) string {
 	return b.String()
 }
 
+const nameSep = " # "
+
+// declNames: the receiver name (or "") followed by the parameter names of a declaration.
+func declNames(fd *ast.FuncDecl) []string {
+	out := []string{""}
+	if fd.Recv != nil && len(fd.Recv.List) == 1 && len(fd.Recv.List[0].Names) == 1 {
+		out[0] = fd.Recv.List[0].Names[0].Name
+	}
+	for _, f := range fd.Type.Params.List {
+		if len(f.Names) == 0 {
+			out = append(out, "_")
+		}
+		for _, n := range f.Names {
+			out = append(out, n.Name)
+		}
+	}
+	return out
+}
+
+func splitInv(v string) (sig string, names []string) {
+	i := strings.Index(v, nameSep)
+	if i < 0 {
+		return v, nil
+	}
+	return v[:i], strings.Split(v[i+len(nameSep):], ",")
+}
+
 // Inventory lists the declared functions of the tree at dir: stable name -> SigKey.
 func Inventory(dir string) (map[string]string, error) {
 	st, err := load(dir, nil)
@@ -178,9 +205,41 @@ func Inventory(dir string) (map[string]string, error) {
 	}
 	inv := map[string]string{}
 	for _, fi := range st.funcs() {
-		inv[fi.name] = SigKey(fi.obj)
+		inv[fi.name] = SigKey(fi.obj) + nameSep + strings.Join(declNames(fi.decl), ",")
 	}
 	return inv, nil
+}
+
+// Source is the confirmed declaration of an unexported function: the file it lives in
+// (relative to the module root) and its text, doc comment included.
+type Source struct {
+	File string `json:"file"`
+	Text string `json:"text"`
+}
+
+// Sources lists the declarations of the unexported functions of the tree at dir.
+func Sources(dir string) (map[string]Source, error) {
+	st, err := load(dir, nil)
+	if err != nil {
+		return nil, err
+	}
+	out := map[string]Source{}
+	for _, fi := range st.funcs() {
+		if ast.IsExported(fi.obj.Name()) || fi.obj.Name() == "init" || fi.obj.Name() == "main" {
+			continue
+		}
+		fname := st.fileName(fi.decl.Pos())
+		if strings.HasSuffix(fname, "_test.go") {
+			continue
+		}
+		start := fi.decl.Pos()
+		if fi.decl.Doc != nil {
+			start = fi.decl.Doc.Pos()
+		}
+		rel, _ := filepath.Rel(dir, fname)
+		out[fi.name] = Source{File: rel, Text: string(st.src[fname][st.offset(start):st.offset(fi.decl.End())])}
+	}
+	return out, nil
 }
 
 func (st *state) funcs() []*funcInfo {
@@ -205,12 +264,12 @@ func (st *state) funcs() []*funcInfo {
 }
 
 // Normalise runs the pass.  inv is the inventory of the confirmed tree.
-func Normalise(dir string, overlay map[string][]byte, inv map[string]string) (*Result, error) {
+func Normalise(dir string, overlay map[string][]byte, inv map[string]string, srcs map[string]Source) (*Result, error) {
 	res := &Result{Overlay: map[string][]byte{}}
 	for k, v := range overlay {
 		res.Overlay[k] = v
 	}
-	if !hasUnknown(dir, res.Overlay, inv) {
+	if !hasUnknown(dir, res.Overlay, inv, srcs) {
 		return res, nil
 	}
 	skip := map[string]string{}
@@ -243,19 +302,54 @@ func Normalise(dir string, overlay map[string][]byte, inv map[string]string) (*R
 			}
 			unknown = append(unknown, fi)
 		}
-		if len(unknown) == 0 {
-			break
-		}
 		var edits []edit
 		var note string
 		var subject string
+		// parameter / receiver names of known functions: back to the confirmed names
+		for _, fi := range fis {
+			full, ok := inv[fi.name]
+			if !ok || skip["params:"+fi.name] != "" {
+				continue
+			}
+			key, names := splitInv(full)
+			if names == nil || key != SigKey(fi.obj) {
+				continue
+			}
+			cur := declNames(fi.decl)
+			if len(cur) != len(names) || strings.Join(cur, ",") == strings.Join(names, ",") {
+				continue
+			}
+			es, err := st.paramEdits(fi, cur, names)
+			if err != nil {
+				skip["params:"+fi.name] = err.Error()
+				res.Notes = append(res.Notes, fmt.Sprintf("left the parameter names of %s as written: %v", fi.name, err))
+				continue
+			}
+			edits = es
+			note = fmt.Sprintf("gave the parameters of %s their confirmed names back (%s -> %s)", fi.name, strings.Join(cur, ","), strings.Join(names, ","))
+			subject = "params:" + fi.name
+			break
+		}
+		missing := false
+		for name := range srcs {
+			if !present[name] && skip["gone:"+name] == "" {
+				missing = true
+			}
+		}
+		if edits == nil && len(unknown) == 0 && !missing {
+			break
+		}
 		// renames first
 		for _, u := range unknown {
+			if edits != nil {
+				break
+			}
 			if skip[u.name] != "" {
 				continue
 			}
 			var cands []string
-			for name, key := range inv {
+			for name, full := range inv {
+				key, _ := splitInv(full)
 				if present[name] || key != SigKey(u.obj) {
 					continue
 				}
@@ -270,7 +364,7 @@ func Normalise(dir string, overlay map[string][]byte, inv map[string]string) (*R
 			// no other unknown function may claim the same old name
 			claim := 0
 			for _, v := range unknown {
-				if SigKey(v.obj) == inv[cands[0]] && pkgOf(v.name) == pkgOf(cands[0]) && recvOf(v.name) == recvOf(cands[0]) {
+				if ck, _ := splitInv(inv[cands[0]]); SigKey(v.obj) == ck && pkgOf(v.name) == pkgOf(cands[0]) && recvOf(v.name) == recvOf(cands[0]) {
 					claim++
 				}
 			}
@@ -296,6 +390,33 @@ func Normalise(dir string, overlay map[string][]byte, inv map[string]string) (*R
 					continue
 				}
 				edits, note, subject = e, n, u.name
+				break
+			}
+		}
+		if edits == nil {
+			// a confirmed unexported helper that has disappeared (a maintainer inlined
+			// it into its callers): put its confirmed declaration back, unused. Rules
+			// that name it find it again; what its former callers now do in its place
+			// is judged by the rules about them.
+			var gone []string
+			for name := range srcs {
+				if !present[name] && skip["gone:"+name] == "" {
+					gone = append(gone, name)
+				}
+			}
+			sort.Strings(gone)
+			for _, name := range gone {
+				src := srcs[name]
+				target := filepath.Join(dir, src.File)
+				if _, ok := st.src[target]; !ok {
+					skip["gone:"+name] = "file gone"
+					res.Notes = append(res.Notes, fmt.Sprintf("the confirmed helper %s is gone and so is its file %s", name, src.File))
+					continue
+				}
+				at := len(st.src[target])
+				edits = []edit{{target, at, at, "\n" + src.Text + "\n"}}
+				note = fmt.Sprintf("the confirmed helper %s is no longer declared (inlined into its callers?): its confirmed declaration was put back, unused, so that rules naming it resolve", name)
+				subject = "gone:" + name
 				break
 			}
 		}
@@ -1201,8 +1322,10 @@ func (st *state) sameTypeParams(u *funcInfo, call *ast.CallExpr, info *types.Inf
 // hasUnknown parses (only) the module's non-test files and reports whether an
 // unexported function outside the inventory is declared; false lets the pass return
 // at once, which is the case on the unchanged tree.
-func hasUnknown(dir string, overlay map[string][]byte, inv map[string]string) bool {
+func hasUnknown(dir string, overlay map[string][]byte, inv map[string]string, srcs map[string]Source) bool {
 	found := false
+	seenNames := map[string]bool{}
+	defer func() {}()
 	fset := token.NewFileSet()
 	filepath.WalkDir(dir, func(path string, d os.DirEntry, err error) error {
 		if err != nil {
@@ -1229,9 +1352,10 @@ func hasUnknown(dir string, overlay map[string][]byte, inv map[string]string) bo
 		}
 		for _, dcl := range f.Decls {
 			fd, ok := dcl.(*ast.FuncDecl)
-			if !ok || ast.IsExported(fd.Name.Name) || fd.Name.Name == "init" || fd.Name.Name == "main" {
+			if !ok || fd.Name.Name == "init" || fd.Name.Name == "main" {
 				continue
 			}
+			exported := ast.IsExported(fd.Name.Name)
 			name := f.Name.Name + "." + fd.Name.Name
 			if fd.Recv != nil && len(fd.Recv.List) == 1 {
 				t := fd.Recv.List[0].Type
@@ -1256,11 +1380,101 @@ func hasUnknown(dir string, overlay map[string][]byte, inv map[string]string) bo
 					name = fmt.Sprintf("%s.(%s).%s", f.Name.Name, tn, fd.Name.Name)
 				}
 			}
-			if _, ok := inv[name]; !ok {
-				found = true
+			seenNames[name] = true
+			full, ok := inv[name]
+			if !ok {
+				if !exported {
+					found = true
+				}
+				continue
+			}
+			if _, names := splitInv(full); names != nil {
+				cur := declNames(fd)
+				if len(cur) == len(names) && strings.Join(cur, ",") != strings.Join(names, ",") {
+					found = true
+				}
 			}
 		}
 		return nil
 	})
+	// a confirmed unexported helper that is gone (inlined into its callers, or renamed)
+	for name := range srcs {
+		if !seenNames[name] {
+			found = true
+		}
+	}
 	return found
+}
+
+// paramEdits renames the receiver and parameters of fi from cur to want (position by
+// position); it refuses when a wanted name is already used for something else inside
+// the declaration.
+func (st *state) paramEdits(fi *funcInfo, cur, want []string) ([]edit, error) {
+	info := fi.pkg.TypesInfo
+	var idents []*ast.Ident
+	if fi.decl.Recv != nil && len(fi.decl.Recv.List) == 1 && len(fi.decl.Recv.List[0].Names) == 1 {
+		idents = append(idents, fi.decl.Recv.List[0].Names[0])
+	} else {
+		idents = append(idents, nil)
+	}
+	for _, f := range fi.decl.Type.Params.List {
+		if len(f.Names) == 0 {
+			idents = append(idents, nil)
+		}
+		for _, n := range f.Names {
+			idents = append(idents, n)
+		}
+	}
+	if len(idents) != len(cur) {
+		return nil, fmt.Errorf("parameter list not understood")
+	}
+	target := map[types.Object]string{}
+	for i, id := range idents {
+		if cur[i] == want[i] {
+			continue
+		}
+		if id == nil || cur[i] == "_" || cur[i] == "" || want[i] == "_" || want[i] == "" {
+			return nil, fmt.Errorf("blank or missing name at position %d", i)
+		}
+		obj := info.Defs[id]
+		if obj == nil {
+			return nil, fmt.Errorf("parameter %s has no object", id.Name)
+		}
+		target[obj] = want[i]
+	}
+	wanted := map[string]bool{}
+	for _, n := range target {
+		wanted[n] = true
+	}
+	var es []edit
+	var clash error
+	ast.Inspect(fi.decl, func(n ast.Node) bool {
+		id, ok := n.(*ast.Ident)
+		if !ok {
+			return true
+		}
+		obj := info.Defs[id]
+		if obj == nil {
+			obj = info.Uses[id]
+		}
+		if nn, ok := target[obj]; ok && obj != nil {
+			es = append(es, edit{st.fileName(id.Pos()), st.offset(id.Pos()), st.offset(id.End()), nn})
+			return true
+		}
+		if wanted[id.Name] && obj != nil {
+			// a field or method selector with that name is harmless
+			if _, isVar := obj.(*types.Var); isVar && obj.(*types.Var).IsField() {
+				return true
+			}
+			if _, isFn := obj.(*types.Func); isFn && obj.Parent() == nil {
+				return true
+			}
+			clash = fmt.Errorf("the name %s is used for something else in the function", id.Name)
+		}
+		return true
+	})
+	if clash != nil {
+		return nil, clash
+	}
+	return es, nil
 }
